@@ -2,7 +2,7 @@
 
 import ast
 
-from ..absint import EMPTY, NONE, NONEMPTY, NOTNONE, TOP, DefaultDomain, Interp, Result, State, exc, val
+from ..absint import EMPTY, FALSE, TRUE, NONE, NONEMPTY, NOTNONE, TOP, DefaultDomain, Interp, Result, State, exc, val
 from ..astutil import FUNC_TYPES, attr_chain, dotted, norm, walk_shallow
 from ..loader import AnalysisError, _annotate
 from .common import TWRUNTEST, kw_value, module_function, own_method
@@ -45,25 +45,62 @@ def firing_calls(tree, names):
     return out
 
 
+ENVS = {
+    # env: (Deferred.called, Deferred.result, capture lists after addCallbacks, expected callback)
+    "not fired": (FALSE, ("no-result-attr",), (EMPTY, EMPTY), "on_no_result"),
+    "fired, chain paused or waiting on a nested Deferred": (TRUE, ("intermediate",), (EMPTY, EMPTY), "on_no_result"),
+    "result available": (TRUE, ("the-result",), (NONEMPTY, EMPTY), "on_success"),
+    "failure available": (TRUE, ("the-failure",), (EMPTY, NONEMPTY), "on_failure"),
+    "both callbacks ran (impossible)": (TRUE, TOP, (NONEMPTY, NONEMPTY), None),
+}
+
+
 class ThreeWayDomain(DefaultDomain):
-    def __init__(self, succ_var, fail_var, callbacks):
+    """on_deferred_result under each state the Deferred can be in.  Attaching callbacks runs the
+    success / failure capture exactly when a result / failure is available *now*; Deferred.called and
+    Deferred.result are what Twisted documents: `called` is already true, and `result` an intermediate
+    value, while the chain is paused or waiting on a nested Deferred."""
+
+    def __init__(self, succ_var, fail_var, callbacks, env):
         self.succ_var = succ_var
         self.fail_var = fail_var
         self.callbacks = callbacks
+        self.env = env
+
+    def load_attr(self, chain, st, fr):
+        if len(chain) == 2 and chain[0] == "deferred":
+            if chain[1] == "called":
+                return ENVS[self.env][0]
+            if chain[1] == "result":
+                return ENVS[self.env][1]
+            if chain[1] == "paused":
+                return ("bool",)
+        return None
 
     def call(self, interp, call, st, fr):
         d = dotted(call.func)
-        if d and d.endswith(".addCallbacks"):
-            out = []
-            for sv in (EMPTY, NONEMPTY):
-                for fv in (EMPTY, NONEMPTY):
-                    out.append(val(TOP, st.set(fr.local(self.succ_var), sv).set(fr.local(self.fail_var), fv).set("ev.combo", (sv, fv))))
-            return out
+        if d and d.split(".")[-1] in ("addCallbacks", "addCallback", "addErrback", "addBoth") and d.split(".")[0] == "deferred":
+            sv, fv = ENVS[self.env][2]
+            if self.succ_var:
+                st = st.set(fr.local(self.succ_var), sv)
+            if self.fail_var:
+                st = st.set(fr.local(self.fail_var), fv)
+            return [val(TOP, st)]
         if isinstance(call.func, ast.Name) and call.func.id in self.callbacks:
             n = st.get("ev.calls", ())
             return [val(("verdict", call.func.id), st.set("ev.calls", n + (call.func.id,)))]
-        if d == "partial" or (isinstance(call.func, ast.Name) and call.func.id[:1].isupper()):
-            return [val(TOP, st)]
+        if d == "isinstance" and len(call.args) == 2 and norm(call.args[1]).split(".")[-1] == "Failure":
+            out = []
+            for r in interp.eval(call.args[0], st, fr):
+                if r.kind == "exc":
+                    out.append(r)
+                elif r.value == ("the-failure",):
+                    out.append(val(TRUE, r.state))
+                elif r.value == ("the-result",):
+                    out.append(val(FALSE, r.state))
+                else:
+                    out.append(val(("bool",), r.state))
+            return out
         return [val(TOP, st)]
 
     def raised_value(self, stmt, value, st, fr):
@@ -155,8 +192,6 @@ def run(ctx):
 
     # ------------------------------------------------------------------ three way
     cap = [c for c in walk_shallow(odr, include_self=False) if isinstance(c, ast.Call) and dotted(c.func) == "deferred.addCallbacks"]
-    if len(cap) != 1 or len(cap[0].args) != 2:
-        raise AnalysisError("anchor vanished: on_deferred_result no longer attaches one addCallbacks(success_capture, failure_capture)")
 
     def capture_list(a):
         if isinstance(a, ast.Call) and dotted(a.func) in ("partial", "functools.partial"):
@@ -164,37 +199,39 @@ def run(ctx):
             return dotted(v)
         return None
 
-    sv, fv = capture_list(cap[0].args[0]), capture_list(cap[0].args[1])
-    if not sv or not fv:
-        raise AnalysisError("cannot identify the success / failure capture lists of on_deferred_result")
+    sv = fv = None
+    if len(cap) == 1 and len(cap[0].args) == 2:
+        sv, fv = capture_list(cap[0].args[0]), capture_list(cap[0].args[1])
+        if not sv or not fv:
+            raise AnalysisError("cannot identify the success / failure capture lists of on_deferred_result")
+    elif cap:
+        raise AnalysisError("on_deferred_result attaches callbacks in a way the model does not know")
     cbs = [a.arg for a in odr.args.args[1:]]
-    dom = ThreeWayDomain(sv, fv, cbs)
-    it = Interp(dom, max_depth=2)
-    res = it.analyze(odr, {}, State([("ev.calls", ())]), receiver=None, name="on_deferred_result")
-    ctx.stats["states"] += it.steps
-    want = {(EMPTY, NONEMPTY): ("val", ("on_failure",)), (NONEMPTY, EMPTY): ("val", ("on_success",)), (EMPTY, EMPTY): ("val", ("on_no_result",)), (NONEMPTY, NONEMPTY): ("exc", ())}
-    got = {}
-    for r in res:
-        combo = r.state.get("ev.combo", None)
-        if combo is None:
-            continue
-        got.setdefault(combo, set()).add((r.kind, r.state.get("ev.calls", ()), r.value if r.kind == "val" else None))
-    for combo, (kind, calls) in want.items():
-        outs = got.get(combo, set())
-        ok = len(outs) == 1 and all(o[0] == kind and o[1] == calls for o in outs)
-        if ok and kind == "val":
-            ok = all(o[2] == ("verdict", calls[0]) for o in outs)
-        label = f"successes {'non-empty' if combo[0] == NONEMPTY else 'empty'}, failures {'non-empty' if combo[1] == NONEMPTY else 'empty'}"
-        ctx.check("R-THREEWAY", f"on_deferred_result: {label} -> {'raise' if kind == 'exc' else calls[0] + ' (its value returned)'}", odr, ok,
-                  f"with {label} on_deferred_result does {sorted((o[0], o[1]) for o in outs)} (expected {kind} {calls})",
-                  construct=f"{DEF}:on_deferred_result::{combo[0]}-{combo[1]}")
+    for env, (called, result, lists, want_cb) in ENVS.items():
+        if want_cb is None and not cap:
+            continue  # nothing can observe the impossible state without the capture lists
+        dom = ThreeWayDomain(sv, fv, cbs, env)
+        it = Interp(dom, max_depth=2)
+        res = it.analyze(odr, {}, State([("ev.calls", ())]), receiver=None, name="on_deferred_result")
+        ctx.stats["states"] += it.steps
+        outs = {(r.kind, r.state.get("ev.calls", ()), r.value if r.kind == "val" else None) for r in res}
+        if want_cb is None:
+            ok = bool(outs) and all(o[0] == "exc" and o[1] == () for o in outs)
+            expect = "raise"
+        else:
+            ok = outs == {("val", (want_cb,), ("verdict", want_cb))}
+            expect = f"{want_cb} (its value returned)"
+        ctx.check("R-THREEWAY", f"on_deferred_result, Deferred {env} -> {expect}", odr, ok,
+                  f"with a Deferred that has {env} on_deferred_result does {sorted((o[0], o[1]) for o in outs)} (expected {expect}): "
+                  "the classification does not follow whether a result is available now",
+                  construct=f"{DEF}:on_deferred_result::{env}")
     for cb in cbs:
         calls = [c for c in walk_shallow(odr, include_self=False) if isinstance(c, ast.Call) and dotted(c.func) == cb]
-        ok = len(calls) == 1 and calls[0].args and dotted(calls[0].args[0]) == "deferred"
-        ctx.check("R-THREEWAY", f"{cb} receives the Deferred{' and the captured result' if cb != 'on_no_result' else ''}", odr, ok and (len(calls[0].args) == (1 if cb == "on_no_result" else 2)),
+        ok = bool(calls) and all(c.args and dotted(c.args[0]) == "deferred" and len(c.args) == (1 if cb == "on_no_result" else 2) for c in calls)
+        ctx.check("R-THREEWAY", f"{cb} receives the Deferred{' and the captured result' if cb != 'on_no_result' else ''}", odr, ok,
                   f"{cb} is called with the wrong arguments", construct=f"{DEF}:on_deferred_result::{cb}-args")
     capf = local_defs.get("capture")
-    ok = capf is not None and any(isinstance(c, ast.Call) and dotted(c.func) == f"{capf.args.args[1].arg}.append" and dotted(c.args[0]) == capf.args.args[0].arg for c in ast.walk(capf))
+    ok = not cap or capf is not None and any(isinstance(c, ast.Call) and dotted(c.func) == f"{capf.args.args[1].arg}.append" and dotted(c.args[0]) == capf.args.args[0].arg for c in ast.walk(capf))
     ctx.check("R-THREEWAY", "the capture callback records the value it saw", capf if capf is not None else odr, ok, "capture no longer appends the value to its list", construct=f"{DEF}:on_deferred_result::capture-appends")
 
     # ------------------------------------------------------------------ matcher tables
